@@ -57,7 +57,10 @@ fn in_range(k: &BigUint) -> bool {
 }
 
 pub fn g2_wire(q: &G2) -> Vec<u8> {
-    let (x, y) = q.as_ref().expect("g2_wire(infinity)");
+    let (x, y) = match q.as_ref() {
+        Some(v) => v,
+        None => return vec![0u8], // infinity, as in SEC1
+    };
     let mut v = vec![4u8];
     for c in [&x.1, &x.0, &y.1, &y.0] {
         v.extend_from_slice(&rsm9::be32(c));
@@ -187,9 +190,11 @@ fn master(w: &mut World, op: &Value) -> R<Value> {
     hang_check(w, site, &class, &log, case);
     if let Some((k, pubw)) = res {
         c14_used(w, site, &log, Some(&k), case);
-        let want = rsm9::with(|s| if kind == "sign" { g2_wire(&s.g2_mul(&k, &s.g2)) } else { s.g1_bytes(&s.g1_mul(&k, &s.g1)) });
-        let key = json!({"entry":site,"class":"any","outcome":"Ok"});
-        w.check(prop_of(kind), "master-public-matches", want == pubw, case, key, || format!("master public key is not [k]P for k={}", hex::encode(rsm9::be32(&k))));
+        if in_range(&k) {
+            let want = rsm9::with(|s| if kind == "sign" { g2_wire(&s.g2_mul(&k, &s.g2)) } else { s.g1_bytes(&s.g1_mul(&k, &s.g1)) });
+            let key = json!({"entry":site,"class":"any","outcome":"Ok"});
+            w.check(prop_of(kind), "master-public-matches", want == pubw, case, key, || format!("master public key is not [k]P for k={}", hex::encode(rsm9::be32(&k))));
+        }
         w.put(gs(op, "k")?, rsm9::be32(&k).to_vec());
         w.put(gs(op, "pub")?, pubw);
     }
